@@ -279,7 +279,8 @@ class Validator(PySHACLRunType):
                 'functions': gather_functions(executor, self.shacl_graph),
                 'rules': gather_rules(executor, self.shacl_graph, from_shapes=gather_from_shapes),
             }
-            for s in shapes:
+            # every known shape, not only the selected ones: a selected shape may consult others (sh:node, sh:property, ...)
+            for s in self.shacl_graph.shapes:
                 s.set_advanced(True)
             apply_target_types(target_types)
         else:
